@@ -80,19 +80,39 @@ SLUGS2 = {
     "C17_change2": ("boxed-debug-probe-leaks", "BoxedLockCollection Debug probes members with raw_try_read via any() and never rolls back on short-circuit", "formatting a boxed collection with a non-first member write-held"),
 }
 
+SLUGS3 = {
+    "C01_change1": ("ref-read-listing-order", "RefLockCollection::raw_read locks get_locks_unsorted(data) (listing order) while every other path uses the sorted list", "Ref collection, blocking read, >= 2 locks listed against address order, a concurrent sorted writer and the interleaving"),
+    "C02_change1": ("mutex-unlock-releases-twice", "Mutex::unlock(guard) releases the raw mutex explicitly and then again through the guard's destructor", "Mutex::unlock (not drop) while another thread is waiting for / takes the mutex in the window"),
+    "C03_change1": ("post-block-kill-check-leaks", "ordered_write/read re-check a 'killed' flag after each blocking acquisition and panic without releasing the raw lock just taken", "a lock that is killed (unlock panicked earlier) acquired again through a collection"),
+    "C04_change1": ("ordered-dropguard-releases-on-success-while-panicking", "ordered_write/read use a drop guard that is not disarmed on success when thread::panicking(): an acquisition made from a destructor during unwinding reports success with nothing held", "a blocking collection acquisition made inside a destructor that runs during an unwind"),
+    "C05_change1": ("scoped-write-unlock-inside-protected-closure", "utils::scoped_write moves raw_unlock_write inside the closure protected by handle_unwind: a release that panics half-way is followed by a second full release", "a collection scoped_lock whose unlock panics at one member"),
+    "C06_change1": ("scoped-unwind-releases-key-cell", "collections' scoped helpers release the thread's key cell in their unwind handler even when the key was only lent (&mut ThreadKey)", "scoped call with a borrowed key whose closure panics, caught, then ThreadKey::get() while the original key is alive"),
+    "C07_change1": ("boxed-get-ptrs-set-union", "BoxedLockCollection::get_ptrs merges its sorted list into the caller's with a set-union merge that drops equal addresses: a duplicate shared between a nested boxed collection and its sibling disappears before the duplicate check", "try_new over a boxed collection plus a reference to one of its members"),
+    "C08_change1": ("boxed-sorts-by-offset-from-own-allocation", "BoxedLockCollection sorts by address.wrapping_sub(own allocation address): locks below the collection's box sort after those above it", "two boxed collections over the same external locks whose boxes lie on different sides of them"),
+    "C09_change1": ("retry-max-rollbacks-then-block-in-place", "RetryingLockCollection gives up rolling back after 3 rounds and blocks in place on the refused member while holding the others", "retrying collection refused 3 times in one acquisition"),
+    "C10_change1": ("poisonable-unlock-skips-poisonref-drop", "Poisonable::unlock/unlock_read forget the PoisonRef (mem::forget) before releasing: an unlock during unwinding does not poison", "Poisonable::unlock(guard) called from a destructor while the thread is panicking"),
+    "C11_change1": ("poisonable-scoped-fast-path-when-poisoned", "Poisonable::scoped_* call the closure without handle_unwind when the wrapper is already poisoned: a panic there leaks the inner lock", "already-poisoned Poisonable, scoped call whose closure panics"),
+    "C12_change1": ("retry-try-write-rollback-before-reset", "retrying raw_try_write's unwind handler releases before locked.set(0)-style reset: a panicking try at member i releases members it never took", "retrying try_lock with a panicking raw try at index >= 1"),
+    "C13_change1": ("retry-try-write-rollback-saturating", "retrying raw_try_write rolls back 0..=i.saturating_sub(1): releases locks[0] when the first member itself refuses", "retrying try_lock refused at member 0 while another thread holds it"),
+    "C14_change1": ("poisonable-scoped-try-read-any-key", "Poisonable::scoped_try_read lost its Keyable bound: any value is accepted in the key position", "Poisonable over a Sharable + scoped_try_read with a non-key argument"),
+    "C15_change1": ("rwlock-scoped-try-read-ref-escapes", "RwLock::scoped_try_read's closure takes &'a T again (re-seeds part of repaired defect D3a)", "returning the reference out of the closure"),
+    "C16_change1": ("boxed-slice-into-inner-reversed", "Box<[T]>::into_inner collects the values in reverse", "into_inner of a collection over a boxed slice with >= 2 distinguishable values"),
+    "C17_change1": ("poisonable-debug-leaks-probe-when-poisoned", "Poisonable Debug probes the inner lock with a try and returns early without releasing when the wrapper is poisoned", "formatting a poisoned, currently free Poisonable"),
+}
+
 ROOT = "/verif/seeded"
 
 
 def main():
     os.makedirs(ROOT, exist_ok=True)
-    items = [(1, k, v) for k, v in sorted(SLUGS.items())] + [(2, k, v) for k, v in sorted(SLUGS2.items())]
+    items = [(1, k, v) for k, v in sorted(SLUGS.items())] + [(2, k, v) for k, v in sorted(SLUGS2.items())] + [(3, k, v) for k, v in sorted(SLUGS3.items())]
     for rnd, key, (slug, what, needs) in items:
         prop, ch = key.split("_")
-        src = ("/tmp/seed-%s/%s" if rnd == 1 else "/tmp/seed2-%s/%s") % (prop, ch)
+        src = {1: "/tmp/seed-%s/%s", 2: "/tmp/seed2-%s/%s", 3: "/tmp/seed3-%s/%s"}[rnd] % (prop, ch)
         if not os.path.isdir(src):
             print("missing", src)
             continue
-        sid = "%s-%s-%s" % (prop, ch[-1] if rnd == 1 else str(int(ch[-1]) + 2), slug)
+        sid = "%s-%s-%s" % (prop, str(int(ch[-1]) + {1: 0, 2: 2, 3: 4}[rnd]), slug)
         d = os.path.join(ROOT, sid)
         os.makedirs(d, exist_ok=True)
         shutil.copy(os.path.join(src, "patch.diff"), os.path.join(d, "patch.diff"))
@@ -103,7 +123,7 @@ def main():
         if os.path.exists(os.path.join(src, "README.md")):
             shutil.copy(os.path.join(src, "README.md"), os.path.join(d, "AUTHOR_README.md"))
         verify = {}
-        vf = ("/tmp/verify-results/%s.json" if rnd == 1 else "/tmp/verify2-results/%s.json") % key
+        vf = {1: "/tmp/verify-results/%s.json", 2: "/tmp/verify2-results/%s.json", 3: "/tmp/verify3-results/%s.json"}[rnd] % key
         if os.path.exists(vf):
             try:
                 verify = json.load(open(vf))
@@ -112,7 +132,7 @@ def main():
             except Exception:
                 pass
         detect = {}
-        df = ("/tmp/detect/results/%s.json" if rnd == 1 else "/tmp/detect/results2/%s.json") % key
+        df = {1: "/tmp/detect/results/%s.json", 2: "/tmp/detect/results2/%s.json", 3: "/tmp/detect/results3/%s.json"}[rnd] % key
         if os.path.exists(df):
             try:
                 detect = json.load(open(df))
@@ -120,7 +140,7 @@ def main():
                 pass
         # final run of the property's own check with the committed machinery, on /repo itself
         final = {}
-        ff = ("/tmp/detect/final/%s.json" if rnd == 1 else "/tmp/detect/final2/%s.json") % key
+        ff = {1: "/tmp/detect/final/%s.json", 2: "/tmp/detect/final2/%s.json", 3: "/tmp/detect/final3/%s.json"}[rnd] % key
         if os.path.exists(ff):
             try:
                 final = json.load(open(ff))
@@ -134,7 +154,7 @@ def main():
             breaks_property=prop,
             change=what,
             needs_to_manifest=needs,
-            origin="round %d: written by an independent sub-agent that saw only the property text%s and a scratch worktree of /repo" % (rnd, "" if rnd == 1 else " (plus one-line descriptions of the round-1 changes, to avoid repeats)"),
+            origin="round %d: written by an independent sub-agent that saw only the property text%s and a scratch worktree of /repo" % (rnd, "" if rnd == 1 else " (plus one-line descriptions of the earlier rounds' changes, to avoid repeats)"),
             confirmed=dict(
                 how="lib/seedtest.py verify (scratch worktree of /repo at HEAD): patch applies; cargo test --offline --workspace passes with the patch; demo.rs %s" % (
                     "does not compile without the patch and compiles + shows the harm with it" if prop in ("C14", "C15") else "passes without the patch and fails with it"),
